@@ -175,9 +175,17 @@ func (s *v4Server) ResetLeases(leases []*dhcpsvc.Lease) (err error) {
 	return nil
 }
 
-// getLeasesRef returns the actual leases slice.  For internal use only.
-func (s *v4Server) getLeasesRef() []*dhcpsvc.Lease {
-	return s.leases
+// cloneLeases implements the [DHCPServer] interface for *v4Server.
+func (s *v4Server) cloneLeases() (leases []*dhcpsvc.Lease) {
+	s.leasesLock.Lock()
+	defer s.leasesLock.Unlock()
+
+	leases = make([]*dhcpsvc.Lease, 0, len(s.leases))
+	for _, l := range s.leases {
+		leases = append(leases, l.Clone())
+	}
+
+	return leases
 }
 
 // isBlocklisted returns true if this lease holds a blocklisted IP.
